@@ -1,6 +1,1125 @@
-//! C08 (stub)
+//! C08 — Montgomery-form values stay canonical and track Z/mZ over any operation history.
+//!
+//! Oracle: next to every Montgomery-form value its integer value `v` in `[0, m)` is kept as a
+//! `BigUint` and updated with plain modular arithmetic. After every step the value is observed:
+//! `retrieve() == v`, and `as_montgomery()` / `to_montgomery()` equal `v * R mod m` (in particular
+//! `< m`), `R = 2^(64 * limbs)`.
+//!
+//! The three representations (`MontyForm<L>`, `BoxedMontyForm`, `ConstMontyForm<P, L>`) are driven
+//! through one local trait [`Form`]; `Form::apply` enumerates every public API form of an operation
+//! ([`Op`]), so the single-operation cases and the random operation-sequence cases share one table.
+//!
+//! m = 1 is an admissible modulus (`Odd::new(1)` succeeds, the property quantifies over it). It is
+//! kept in cases of its own (`.. m = 1`) so that a deviation there cannot eat the failure budget of
+//! the general cases.
+
 use super::prelude::*;
+use crypto_bigint::modular::{
+    BoxedMontyForm, BoxedMontyParams, ConstMontyForm, ConstMontyFormInverter, ConstMontyParams, MontyForm, MontyParams,
+    Retrieve,
+};
+use crypto_bigint::{
+    ConstZero, Invert, Inverter, Monty, MontyMultiplier, PrecomputeInverter, Random, Square, SquareAssign, U64, U128, U192, U256,
+    U1024, impl_modulus,
+};
+use std::sync::Arc;
+
+/// `holds!` as a statement (the shared macro yields an unused `||` value, which warns).
+macro_rules! hold {
+    ($($t:tt)*) => {
+        let _ = holds!($($t)*);
+    };
+}
+
+// ---------------------------------------------------------------- compile-time moduli
+
+impl_modulus!(ModP256, U256, "ffffffff00000001000000000000000000000000ffffffffffffffffffffffff", "P-256 field prime (0 leading zeros)");
+impl_modulus!(ModM64, U64, "ffffffffffffffc5", "2^64 - 59");
+impl_modulus!(ModThree, U64, "0000000000000003", "3 in one limb");
+impl_modulus!(ModOne, U64, "0000000000000001", "the modulus 1");
+impl_modulus!(ModM127, U128, "7fffffffffffffffffffffffffffffff", "2^127 - 1 (1 leading zero)");
+impl_modulus!(ModLz2, U128, "2b00000000000000ffffffffffffff0d", "2 leading zeros");
+impl_modulus!(ModLz5, U256, "07ffffffffffffffffffffffffffffffffffffffffffffffffffffffffffffe3", "5 leading zeros");
+impl_modulus!(ModSmall192, U192, "00000000000000000000000000000001000000000000000d", "2^64 + 13 in three limbs (whole zero high limb)");
+impl_modulus!(
+    ModBig1024,
+    U1024,
+    "ffffffffffffffffffffffffffffffffffffffffffffffffffffffffffffffffffffffffffffffffffffffffffffffffffffffffffffffffffffffffffffffffffffffffffffffffffffffffffffffffffffffffffffffffffffffffffffffffffffffffffffffffffffffffffffffffffffffffffffffffffffffffffffff97",
+    "2^1024 - 105"
+);
+
+// ---------------------------------------------------------------- operation table
+
+/// One public API form of one operation on Montgomery-form values.
+#[derive(Clone, Copy, Debug, PartialEq, Eq)]
+pub enum Op {
+    // binary: r = a (op) b
+    AddInh, AddRR, AddRV, AddVR, AddVV, AddAssignR, AddAssignV,
+    SubInh, SubRR, SubRV, SubVR, SubVV, SubAssignR, SubAssignV,
+    MulInh, MulRR, MulRV, MulVR, MulVV, MulAssignR, MulAssignV,
+    /// `MontyMultiplier::mul_assign` on a fresh multiplier object
+    MultiplierMul,
+    /// `MontyMultiplier::mul_assign` on a multiplier object that was used before
+    MultiplierMulReused,
+    /// `ConditionallySelectable::conditional_select(a, b, 0)` / `(a, b, 1)` / `conditional_assign`
+    Select0, Select1, CondAssign0, CondAssign1,
+    /// `Monty::copy_montgomery_from`
+    CopyFrom,
+    // unary: r = (op) a
+    NegInh, NegV, NegR,
+    DoubleInh, DoubleTrait,
+    SquareInh, SquareTrait, SquareAssignTrait, MultiplierSquare,
+    HalfInh, HalfTrait, HalfAssignTrait, HalfAssign,
+    /// `new(retrieve(a))`, `Monty::new(Retrieve::retrieve(a))`, `new_with_arc(..)`
+    Renew, RenewTrait, RenewArc,
+    /// `from_montgomery(to_montgomery(a))`
+    FromMontgomery,
+    /// plain `clone()`
+    CloneOp,
+    // nullary
+    ZeroInh, OneInh, ZeroTrait, OneTrait, ZeroDefault, ZeroConst, ZeroNum,
+}
+
+use Op::*;
+pub const OPS: [Op; 56] = [
+    AddInh, AddRR, AddRV, AddVR, AddVV, AddAssignR, AddAssignV, SubInh, SubRR, SubRV, SubVR, SubVV, SubAssignR, SubAssignV,
+    MulInh, MulRR, MulRV, MulVR, MulVV, MulAssignR, MulAssignV, MultiplierMul, MultiplierMulReused, Select0, Select1,
+    CondAssign0, CondAssign1, CopyFrom, NegInh, NegV, NegR, DoubleInh, DoubleTrait, SquareInh, SquareTrait, SquareAssignTrait,
+    MultiplierSquare, HalfInh, HalfTrait, HalfAssignTrait, HalfAssign, Renew, RenewTrait, RenewArc, FromMontgomery, CloneOp,
+    ZeroInh, OneInh, ZeroTrait, OneTrait, ZeroDefault, ZeroConst, ZeroNum,
+    // the plain forms once more: a uniformly drawn operation should not be a constructor too often
+    MulInh, AddInh, SubInh,
+];
+
+impl Op {
+    /// number of operands read
+    pub fn arity(self) -> usize {
+        match self {
+            AddInh | AddRR | AddRV | AddVR | AddVV | AddAssignR | AddAssignV | SubInh | SubRR | SubRV | SubVR | SubVV
+            | SubAssignR | SubAssignV | MulInh | MulRR | MulRV | MulVR | MulVV | MulAssignR | MulAssignV | MultiplierMul
+            | MultiplierMulReused | Select0 | Select1 | CondAssign0 | CondAssign1 | CopyFrom => 2,
+            ZeroInh | OneInh | ZeroTrait | OneTrait | ZeroDefault | ZeroConst | ZeroNum => 0,
+            _ => 1,
+        }
+    }
+
+    /// The value of the expression in Z/mZ (`a`, `b` in `[0, m)`).
+    pub fn oracle(self, a: &BigUint, b: &BigUint, m: &BigUint) -> BigUint {
+        match self {
+            AddInh | AddRR | AddRV | AddVR | AddVV | AddAssignR | AddAssignV => (a + b) % m,
+            SubInh | SubRR | SubRV | SubVR | SubVV | SubAssignR | SubAssignV => (a + m - b) % m,
+            MulInh | MulRR | MulRV | MulVR | MulVV | MulAssignR | MulAssignV | MultiplierMul | MultiplierMulReused => a * b % m,
+            Select0 | CondAssign0 => a.clone(),
+            Select1 | CondAssign1 | CopyFrom => b.clone(),
+            NegInh | NegV | NegR => (m - a) % m,
+            DoubleInh | DoubleTrait => (a + a) % m,
+            SquareInh | SquareTrait | SquareAssignTrait | MultiplierSquare => a * a % m,
+            // the x with x + x = a: a/2 for even a, (a + m)/2 for odd a (m is odd)
+            HalfInh | HalfTrait | HalfAssignTrait | HalfAssign => {
+                if a.bit(0) { ((a + m) >> 1) % m } else { a >> 1 }
+            }
+            Renew | RenewTrait | RenewArc | FromMontgomery | CloneOp => a.clone(),
+            ZeroInh | ZeroTrait | ZeroDefault | ZeroConst | ZeroNum => BigUint::zero(),
+            OneInh | OneTrait => BigUint::one() % m,
+        }
+    }
+}
+
+/// What is observed of a value: `(retrieve, as_montgomery, to_montgomery, limbs of retrieve)`.
+pub type Obs = (BigUint, BigUint, BigUint, usize);
+
+/// A Montgomery-form representation under test.
+pub trait Form: Clone + Sized {
+    /// parameter handle (`()` for the compile-time form)
+    type P: Clone;
+    /// number of inversion API forms
+    const INV_FORMS: usize;
+    /// the fixed modulus of a compile-time form
+    fn fixed_modulus() -> Option<BigUint> {
+        None
+    }
+    /// parameters for the odd modulus `m` in `limbs` limbs, by the constant-time (`ct`) or the
+    /// vartime constructor
+    fn params(m: &BigUint, limbs: usize, ct: bool) -> Self::P;
+    /// inherent `new` on an arbitrary integer of the width
+    fn make(v: &BigUint, limbs: usize, p: &Self::P) -> Self;
+    /// `Monty::new` on an arbitrary integer of the width
+    fn make_trait(_v: &BigUint, _limbs: usize, _p: &Self::P) -> Option<Self> {
+        None
+    }
+    fn observe(&self) -> Obs;
+    /// `(Retrieve::retrieve, Monty::as_montgomery)`
+    fn observe_trait(&self) -> Option<(BigUint, BigUint)> {
+        None
+    }
+    /// every equality-like observation of two values (`==`, `ct_eq`): all must equal `a == b`
+    fn equalities(a: &Self, b: &Self) -> Vec<bool>;
+    /// every zero test of a value: all must equal `a == 0`
+    fn zero_tests(_a: &Self) -> Vec<bool> {
+        Vec::new()
+    }
+    /// `None`: this representation does not have the form
+    fn apply(op: Op, a: &Self, b: &Self, p: &Self::P) -> Option<Self>;
+    /// inversion API form number `which`
+    fn inv(which: usize, a: &Self, p: &Self::P) -> Option<Self>;
+}
+
+/// Inherent methods and operators — identical spelling for the three representations.
+macro_rules! common_ops {
+    ($T:ty, $op:expr, $a:expr, $b:expr) => {{
+        let (a, b): ($T, $T) = ($a.clone(), $b.clone());
+        match $op {
+            AddInh => Some(<$T>::add(&a, &b)),
+            AddRR => Some(&a + &b),
+            AddRV => Some(&a + b),
+            AddVR => Some(a + &b),
+            AddVV => Some(a + b),
+            AddAssignR => {
+                let mut t = a;
+                t += &b;
+                Some(t)
+            }
+            AddAssignV => {
+                let mut t = a;
+                t += b;
+                Some(t)
+            }
+            SubInh => Some(<$T>::sub(&a, &b)),
+            SubRR => Some(&a - &b),
+            SubRV => Some(&a - b),
+            SubVR => Some(a - &b),
+            SubVV => Some(a - b),
+            SubAssignR => {
+                let mut t = a;
+                t -= &b;
+                Some(t)
+            }
+            SubAssignV => {
+                let mut t = a;
+                t -= b;
+                Some(t)
+            }
+            MulInh => Some(<$T>::mul(&a, &b)),
+            MulRR => Some(&a * &b),
+            MulRV => Some(&a * b),
+            MulVR => Some(a * &b),
+            MulVV => Some(a * b),
+            MulAssignR => {
+                let mut t = a;
+                t *= &b;
+                Some(t)
+            }
+            MulAssignV => {
+                let mut t = a;
+                t *= b;
+                Some(t)
+            }
+            NegInh => Some(<$T>::neg(&a)),
+            NegV => Some(-a),
+            NegR => Some(-&a),
+            DoubleInh => Some(<$T>::double(&a)),
+            SquareInh => Some(<$T>::square(&a)),
+            SquareTrait => Some(<$T as Square>::square(&a)),
+            HalfInh => Some(<$T>::div_by_2(&a)),
+            CloneOp => Some(a.clone()),
+            _ => None,
+        }
+    }};
+}
+
+/// The `Monty` trait forms (runtime and boxed representations).
+fn monty_ops<M: Monty>(op: Op, a: &M, b: &M, p: &M::Params) -> Option<M> {
+    match op {
+        DoubleTrait => Some(Monty::double(a)),
+        HalfTrait => Some(Monty::div_by_2(a)),
+        HalfAssignTrait => {
+            let mut t = a.clone();
+            Monty::div_by_2_assign(&mut t);
+            Some(t)
+        }
+        CopyFrom => {
+            let mut t = a.clone();
+            Monty::copy_montgomery_from(&mut t, b);
+            Some(t)
+        }
+        SquareAssignTrait => {
+            let mut t = a.clone();
+            SquareAssign::square_assign(&mut t);
+            Some(t)
+        }
+        MultiplierMul => {
+            let mut mm = M::Multiplier::from(p);
+            let mut t = a.clone();
+            mm.mul_assign(&mut t, b);
+            Some(t)
+        }
+        MultiplierMulReused => {
+            let mut mm = M::Multiplier::from(p);
+            let mut scratch = b.clone();
+            mm.square_assign(&mut scratch);
+            mm.mul_assign(&mut scratch, a);
+            let mut t = a.clone();
+            mm.mul_assign(&mut t, b);
+            Some(t)
+        }
+        MultiplierSquare => {
+            let mut mm = M::Multiplier::from(p);
+            let mut t = a.clone();
+            mm.square_assign(&mut t);
+            Some(t)
+        }
+        ZeroTrait => Some(<M as Monty>::zero(p.clone())),
+        OneTrait => Some(<M as Monty>::one(p.clone())),
+        RenewTrait => Some(<M as Monty>::new(Retrieve::retrieve(a), p.clone())),
+        _ => None,
+    }
+}
+
+fn choice(bit: u8) -> Choice {
+    Choice::from(bit)
+}
+
+// ---- runtime form; instantiated per width because `MontyParams::new` and `inv` need the
+// ---- double-width / unsaturated limb counts as further const parameters
+
+macro_rules! impl_form_monty {
+    ($($l:literal),+) => {$(
+        impl Form for MontyForm<$l> {
+            type P = MontyParams<$l>;
+            const INV_FORMS: usize = 6;
+            fn params(m: &BigUint, _limbs: usize, ct: bool) -> Self::P {
+                if ct { MontyParams::<$l>::new(oddu::<$l>(m)) } else { MontyParams::<$l>::new_vartime(oddu::<$l>(m)) }
+            }
+            fn make(v: &BigUint, _limbs: usize, p: &Self::P) -> Self {
+                MontyForm::<$l>::new(&bu::<$l>(v), *p)
+            }
+            fn make_trait(v: &BigUint, _limbs: usize, p: &Self::P) -> Option<Self> {
+                Some(<Self as Monty>::new(bu::<$l>(v), *p))
+            }
+            fn observe(&self) -> Obs {
+                (ub(&MontyForm::<$l>::retrieve(self)), ub(MontyForm::<$l>::as_montgomery(self)), ub(&self.to_montgomery()), $l)
+            }
+            fn observe_trait(&self) -> Option<(BigUint, BigUint)> {
+                Some((ub(&Retrieve::retrieve(self)), ub(Monty::as_montgomery(self))))
+            }
+            fn equalities(a: &Self, b: &Self) -> Vec<bool> {
+                vec![a == b, !(a != b), cb(a.ct_eq(b)), cb(b.ct_eq(a))]
+            }
+            fn apply(op: Op, a: &Self, b: &Self, p: &Self::P) -> Option<Self> {
+                common_ops!(MontyForm<$l>, op, a, b).or_else(|| monty_ops(op, a, b, p)).or_else(|| match op {
+                    Select0 => Some(Self::conditional_select(a, b, choice(0))),
+                    Select1 => Some(Self::conditional_select(a, b, choice(1))),
+                    CondAssign0 | CondAssign1 => {
+                        let mut t = *a;
+                        t.conditional_assign(b, choice((op == CondAssign1) as u8));
+                        Some(t)
+                    }
+                    ZeroInh => Some(MontyForm::<$l>::zero(*p)),
+                    OneInh => Some(MontyForm::<$l>::one(*p)),
+                    Renew => Some(MontyForm::<$l>::new(&a.retrieve(), *p)),
+                    FromMontgomery => Some(MontyForm::<$l>::from_montgomery(a.to_montgomery(), *p)),
+                    _ => None,
+                })
+            }
+            fn inv(which: usize, a: &Self, p: &Self::P) -> Option<Self> {
+                match which {
+                    0 => copt(a.inv()),
+                    1 => copt(a.inv_vartime()),
+                    2 => opt(Invert::invert(a)),
+                    3 => opt(Invert::invert_vartime(a)),
+                    4 => opt(p.precompute_inverter().invert(a)),
+                    _ => opt(p.precompute_inverter().invert_vartime(a)),
+                }
+            }
+        }
+    )+};
+}
+impl_form_monty!(1, 2, 3, 4, 6, 8, 16, 32);
+
+// ---- boxed form
+
+impl Form for BoxedMontyForm {
+    type P = BoxedMontyParams;
+    const INV_FORMS: usize = 6;
+    fn params(m: &BigUint, limbs: usize, ct: bool) -> Self::P {
+        if ct { BoxedMontyParams::new(oddx(m, limbs)) } else { BoxedMontyParams::new_vartime(oddx(m, limbs)) }
+    }
+    fn make(v: &BigUint, limbs: usize, p: &Self::P) -> Self {
+        BoxedMontyForm::new(bx(v, limbs), p.clone())
+    }
+    fn make_trait(v: &BigUint, limbs: usize, p: &Self::P) -> Option<Self> {
+        Some(<Self as Monty>::new(bx(v, limbs), p.clone()))
+    }
+    fn observe(&self) -> Obs {
+        let r = BoxedMontyForm::retrieve(self);
+        (xb(&r), xb(BoxedMontyForm::as_montgomery(self)), xb(&self.to_montgomery()), r.nlimbs())
+    }
+    fn observe_trait(&self) -> Option<(BigUint, BigUint)> {
+        Some((xb(&Retrieve::retrieve(self)), xb(Monty::as_montgomery(self))))
+    }
+    fn equalities(a: &Self, b: &Self) -> Vec<bool> {
+        vec![a == b, !(a != b)]
+    }
+    fn zero_tests(a: &Self) -> Vec<bool> {
+        vec![cb(a.is_zero()), !cb(a.is_nonzero())]
+    }
+    fn apply(op: Op, a: &Self, b: &Self, p: &Self::P) -> Option<Self> {
+        common_ops!(BoxedMontyForm, op, a, b).or_else(|| monty_ops(op, a, b, p)).or_else(|| match op {
+            HalfAssign => {
+                let mut t = a.clone();
+                BoxedMontyForm::div_by_2_assign(&mut t);
+                Some(t)
+            }
+            ZeroInh => Some(BoxedMontyForm::zero(p.clone())),
+            OneInh => Some(BoxedMontyForm::one(p.clone())),
+            Renew => Some(BoxedMontyForm::new(a.retrieve(), p.clone())),
+            RenewArc => Some(BoxedMontyForm::new_with_arc(a.retrieve(), Arc::new(p.clone()))),
+            FromMontgomery => Some(BoxedMontyForm::from_montgomery(a.to_montgomery(), p.clone())),
+            _ => None,
+        })
+    }
+    fn inv(which: usize, a: &Self, p: &Self::P) -> Option<Self> {
+        match which {
+            0 => opt(BoxedMontyForm::invert(a)),
+            1 => opt(BoxedMontyForm::invert_vartime(a)),
+            2 => opt(Invert::invert(a)),
+            3 => opt(Invert::invert_vartime(a)),
+            4 => opt(p.precompute_inverter().invert(a)),
+            _ => opt(p.precompute_inverter().invert_vartime(a)),
+        }
+    }
+}
+
+// ---- compile-time form, one impl per declared modulus
+
+macro_rules! impl_form_const {
+    ($(($name:ident, $l:literal)),+) => {$(
+        impl Form for ConstMontyForm<$name, $l> {
+            type P = ();
+            const INV_FORMS: usize = 8;
+            fn fixed_modulus() -> Option<BigUint> {
+                Some(ub(<$name as ConstMontyParams<$l>>::MODULUS.as_ref()))
+            }
+            fn params(_m: &BigUint, _limbs: usize, _ct: bool) -> Self::P {}
+            fn make(v: &BigUint, _limbs: usize, _p: &Self::P) -> Self {
+                Self::new(&bu::<$l>(v))
+            }
+            fn observe(&self) -> Obs {
+                (ub(&Self::retrieve(self)), ub(Self::as_montgomery(self)), ub(&self.to_montgomery()), $l)
+            }
+            fn observe_trait(&self) -> Option<(BigUint, BigUint)> {
+                Some((ub(&Retrieve::retrieve(self)), ub(self.as_montgomery())))
+            }
+            fn equalities(a: &Self, b: &Self) -> Vec<bool> {
+                vec![a == b, !(a != b), cb(a.ct_eq(b)), cb(b.ct_eq(a))]
+            }
+            fn zero_tests(a: &Self) -> Vec<bool> {
+                vec![num_traits::Zero::is_zero(a)]
+            }
+            fn apply(op: Op, a: &Self, b: &Self, _p: &Self::P) -> Option<Self> {
+                common_ops!(ConstMontyForm<$name, $l>, op, a, b).or_else(|| match op {
+                    Select0 => Some(Self::conditional_select(a, b, choice(0))),
+                    Select1 => Some(Self::conditional_select(a, b, choice(1))),
+                    CondAssign0 | CondAssign1 => {
+                        let mut t = *a;
+                        t.conditional_assign(b, choice((op == CondAssign1) as u8));
+                        Some(t)
+                    }
+                    ZeroInh => Some(Self::ZERO),
+                    OneInh => Some(Self::ONE),
+                    ZeroDefault => Some(Default::default()),
+                    ZeroConst => Some(<Self as ConstZero>::ZERO),
+                    ZeroNum => Some(<Self as num_traits::Zero>::zero()),
+                    Renew => Some(Self::new(&a.retrieve())),
+                    FromMontgomery => Some(Self::from_montgomery(a.to_montgomery())),
+                    _ => None,
+                })
+            }
+            fn inv(which: usize, a: &Self, _p: &Self::P) -> Option<Self> {
+                match which {
+                    0 => copt(a.inv()),
+                    1 => copt(a.inv_vartime()),
+                    2 => opt(Invert::invert(a)),
+                    3 => opt(Invert::invert_vartime(a)),
+                    4 => copt(ConstMontyFormInverter::<$name, $l>::new().inv(a)),
+                    5 => copt(ConstMontyFormInverter::<$name, $l>::new().inv_vartime(a)),
+                    6 => opt(Inverter::invert(&<$name as ConstMontyParams<$l>>::precompute_inverter(), a)),
+                    _ => opt(Inverter::invert_vartime(&<$name as ConstMontyParams<$l>>::precompute_inverter(), a)),
+                }
+            }
+        }
+    )+};
+}
+impl_form_const!((ModOne, 1), (ModP256, 4), (ModM64, 1), (ModThree, 1), (ModM127, 2), (ModLz2, 2), (ModLz5, 4), (ModSmall192, 3), (ModBig1024, 16));
+
+// ---------------------------------------------------------------- corpora
+
+/// Odd moduli > 1 of a width: `Ctx::moduli` plus moduli with a chosen number of leading zero bits
+/// (all-ones, minimal and random body) — the linear-combination window and the "whole zero high
+/// limbs" shapes.
+pub fn moduli_gt1(c: &mut Ctx, limbs: usize, n: usize) -> Vec<BigUint> {
+    let bits = 64 * limbs as u32;
+    let mut v = Vec::new();
+    for lz in [1u32, 2, 3, 5, 31, 62, 63, 64, 65, 127, 128, 129] {
+        if lz + 2 <= bits {
+            v.push(mask(bits - lz));
+            v.push(pow2(bits - lz - 1) + 1u32);
+            v.push((c.rnd(limbs) >> lz as usize) | pow2(bits - lz - 1) | BigUint::one());
+        }
+    }
+    let classic = c.moduli(limbs, true, n);
+    // interleave: classics first (they contain 3, MAX, 2^(BITS-1)+1, MAX/3, MAX/4, ..)
+    let mut out: Vec<BigUint> = Vec::new();
+    for m in classic.into_iter().take(19).chain(v).chain(c.moduli(limbs, true, n).into_iter().skip(19)) {
+        if m > BigUint::one() && m.bit(0) && !out.contains(&m) {
+            out.push(m);
+        }
+    }
+    out.truncate(n.max(19 + 12));
+    out
+}
+
+fn moduli_for<F: Form>(c: &mut Ctx, limbs: usize, n: usize) -> Vec<BigUint> {
+    match F::fixed_modulus() {
+        Some(m) => vec![m],
+        None => moduli_gt1(c, limbs, n),
+    }
+}
+
+/// Residues of the property's quantifier: 0, 1, 2, m-1, m-2, (m-1)/2, (m+1)/2, random.
+pub fn values(c: &mut Ctx, m: &BigUint, n: usize) -> Vec<BigUint> {
+    let mut v = c.residues(m, n);
+    v.dedup();
+    v
+}
+
+/// Parameters, or a reported panic of the constructor.
+fn params_or_report<F: Form>(c: &mut Ctx, m: &BigUint, limbs: usize, ct: bool) -> Option<F::P> {
+    match call(|| F::params(m, limbs, ct)) {
+        Ok(p) => Some(p),
+        Err(e) => {
+            let got: Result<(), String> = Err(e);
+            no_panic!(c, got; m, limbs, ct);
+            None
+        }
+    }
+}
+
+/// Compare everything observable of `got` with the value `v` in Z/mZ; returns the form for reuse.
+#[allow(clippy::too_many_arguments)]
+fn expect<F: Form>(
+    c: &mut Ctx,
+    got: Result<F, String>,
+    v: &BigUint,
+    m: &BigUint,
+    r: &BigUint,
+    limbs: usize,
+    what: &str,
+    a: &BigUint,
+    b: &BigUint,
+) -> Option<F> {
+    let mut keep = None;
+    let got = got.and_then(|f| {
+        let o = call(|| f.observe());
+        keep = Some(f);
+        o
+    });
+    let vr = v * r % m;
+    let ok = check!(c, got, (v.clone(), vr.clone(), vr, limbs); what, m, limbs, a, b);
+    if ok { keep } else { None }
+}
+
+// ---------------------------------------------------------------- cases
+
+/// `new` / `Monty::new` on arbitrary (unreduced) integers of the width: documented as "represents
+/// this integer mod MOD", so the input is reduced. Then `retrieve` and the canonical form.
+fn new_retrieve<F: Form>(c: &mut Ctx, limbs: usize) {
+    let bits = 64 * limbs as u32;
+    let nm = if F::fixed_modulus().is_some() { 1 } else { (c.cap / 64).clamp(8, 40) };
+    let per = ((c.cap + c.iters) / nm / 2).clamp(24, 600);
+    for m in moduli_for::<F>(c, limbs, nm) {
+        let Some(p) = params_or_report::<F>(c, &m, limbs, c.checks % 2 == 0) else { continue };
+        let r = pow2(bits) % &m;
+        let mut vs = c.edges(limbs, per / 2);
+        vs.extend(values(c, &m, 7));
+        for k in [1u32, 2, 3] {
+            for d in [0u32, 1] {
+                vs.push(&m * k + d);
+                vs.push(&m * k - 1u32);
+            }
+        }
+        vs.push((mask(bits) / &m) * &m);
+        vs.push((mask(bits) / &m) * &m - 1u32);
+        for _ in 0..per / 2 {
+            vs.push(c.rnd(limbs));
+        }
+        let zero = BigUint::zero();
+        for v in vs {
+            if c.done() {
+                return;
+            }
+            if v.bits() > bits as u64 {
+                continue;
+            }
+            let exp = &v % &m;
+            let f = expect::<F>(c, call(|| F::make(&v, limbs, &p)), &exp, &m, &r, limbs, "new", &v, &zero);
+            if let Ok(Some(t)) = call(|| F::make_trait(&v, limbs, &p)) {
+                expect::<F>(c, Ok(t), &exp, &m, &r, limbs, "Monty::new", &v, &zero);
+            }
+            if let Some(f) = f {
+                if let Some(Some(o)) = call(|| f.observe_trait()).ok() {
+                    let vr = &exp * &r % &m;
+                    check!(c, Ok::<_, String>(o), (exp.clone(), vr); m, limbs, v);
+                }
+            }
+        }
+    }
+}
+
+/// Every API form of every operation, once per pair of quantifier residues.
+fn single_ops_on<F: Form>(c: &mut Ctx, limbs: usize, ms: Vec<BigUint>, nv: usize) {
+    let bits = 64 * limbs as u32;
+    for m in ms {
+        let Some(p) = params_or_report::<F>(c, &m, limbs, c.checks % 2 == 0) else { continue };
+        let r = pow2(bits) % &m;
+        let vals = values(c, &m, nv);
+        let zero = BigUint::zero();
+        let mut forms: Vec<(BigUint, F)> = Vec::new();
+        for v in &vals {
+            if let Some(f) = expect::<F>(c, call(|| F::make(v, limbs, &p)), v, &m, &r, limbs, "new", v, &zero) {
+                forms.push((v.clone(), f));
+            }
+        }
+        for (i, (a, fa)) in forms.iter().enumerate() {
+            let is_zero = a.is_zero();
+            check!(c, call(|| F::zero_tests(fa)).map(|v| v.iter().all(|&z| z == is_zero)), true; m, limbs, a);
+            for (j, (b, fb)) in forms.iter().enumerate() {
+                let equal = a == b;
+                check!(c, call(|| F::equalities(fa, fb)).map(|v| v.iter().all(|&e| e == equal)), true; m, limbs, a, b);
+                for op in &OPS[..OPS.len() - 3] {
+                    if c.done() {
+                        return;
+                    }
+                    // unary forms once per a, nullary forms once per modulus
+                    if (op.arity() < 2 && j != 0) || (op.arity() < 1 && i != 0) {
+                        continue;
+                    }
+                    let got = match call(|| F::apply(*op, fa, fb, &p)) {
+                        Ok(None) => continue,
+                        Ok(Some(f)) => Ok(f),
+                        Err(e) => Err(e),
+                    };
+                    let what = format!("{:?}", op);
+                    expect::<F>(c, got, &op.oracle(a, b, &m), &m, &r, limbs, &what, a, b);
+                }
+            }
+        }
+    }
+}
+
+fn single_ops<F: Form>(c: &mut Ctx, limbs: usize) {
+    let fixed = F::fixed_modulus().is_some();
+    let nm = if fixed { 1 } else { (c.cap / 128).clamp(8, 32) };
+    let nv = if fixed { 10 + c.iters / 100 } else { 7 + c.iters / 400 };
+    let ms = moduli_for::<F>(c, limbs, nm);
+    single_ops_on::<F>(c, limbs, ms, nv.min(30));
+}
+
+/// m = 1: Z/1Z has the single element 0; every value must be stored as 0 (the only value < m).
+fn single_ops_m1<F: Form>(c: &mut Ctx, limbs: usize) {
+    single_ops_on::<F>(c, limbs, vec![BigUint::one()], 3);
+}
+
+/// Inversion: `Some` exactly when gcd(v, m) = 1, and then the unique inverse in `[0, m)`,
+/// canonical. (m = 1 is skipped: the `Inverter` documentation says "None if value is zero", the
+/// arithmetic says 0 * 0 = 1 in Z/1Z.)
+fn inversion<F: Form>(c: &mut Ctx, limbs: usize) {
+    let bits = 64 * limbs as u32;
+    let fixed = F::fixed_modulus().is_some();
+    let wide = limbs > 4;
+    let huge = limbs > 16;
+    let nm = if fixed { 1 } else if huge { 2 } else if wide { 4 } else { (c.cap / 256).clamp(6, 16) };
+    let nv = if huge { 5 } else if wide { 5 + c.iters / 250 } else if fixed { 16 + c.iters / 20 } else { 10 + c.iters / 100 };
+    let zero = BigUint::zero();
+    for m in moduli_for::<F>(c, limbs, nm) {
+        let Some(p) = params_or_report::<F>(c, &m, limbs, c.checks % 2 == 0) else { continue };
+        let r = pow2(bits) % &m;
+        let mut vals = values(c, &m, nv);
+        // non-units: multiples of the small prime factors of m, and m / q
+        for q in [3u32, 5, 7, 11, 13, 17, 257, 641, 65537] {
+            if (&m % q).is_zero() && m > BigUint::from(q) {
+                let k = c.rnd_below(&(&m / q));
+                vals.push(k * q);
+                vals.push(&m / q);
+                vals.push(&m - q);
+            }
+        }
+        for v in vals {
+            let exp = inv_mod_oracle(&v, &m);
+            let Some(f) = expect::<F>(c, call(|| F::make(&v, limbs, &p)), &v, &m, &r, limbs, "new", &v, &zero) else { continue };
+            for which in 0..F::INV_FORMS {
+                if c.done() {
+                    return;
+                }
+                let got = call(|| F::inv(which, &f, &p));
+                match (&exp, got) {
+                    (Some(e), Ok(Some(g))) => {
+                        let what = format!("inversion form {}", which);
+                        expect::<F>(c, Ok(g), e, &m, &r, limbs, &what, &v, &zero);
+                    }
+                    (e, got) => {
+                        // is_some must agree (or the call panicked)
+                        check!(c, got.map(|g| g.is_some()), e.is_some(); m, limbs, v, which);
+                    }
+                }
+            }
+        }
+    }
+}
+
+/// Random operation sequences of length <= 64 over four registers; values are drawn from
+/// {0, 1, m-1, (m-1)/2, (m+1)/2, random}; the register written by a step is observed after the step
+/// (the others hold values that were observed when they were written), so every prefix is checked.
+fn sequences_on<F: Form>(c: &mut Ctx, limbs: usize, ms: Vec<BigUint>, nseq: usize) {
+    let bits = 64 * limbs as u32;
+    let zero = BigUint::zero();
+    const REGS: usize = 4;
+    for s in 0..nseq {
+        if c.done() {
+            return;
+        }
+        let m = if s % 3 == 2 && F::fixed_modulus().is_none() {
+            let x = c.rnd(limbs) | BigUint::one();
+            if x.is_one() { ms[0].clone() } else { x }
+        } else {
+            ms[(s / 3 * 2 + s % 3) % ms.len()].clone()
+        };
+        let Some(p) = params_or_report::<F>(c, &m, limbs, s % 2 == 0) else { continue };
+        let r = pow2(bits) % &m;
+        let pool = [BigUint::zero(), BigUint::one() % &m, &m - 1u32, &m >> 1, ((&m + 1u32) >> 1) % &m];
+        let draw = |c: &mut Ctx| if c.below(3) == 0 { c.rnd_below(&m) } else { pool[c.below(pool.len())].clone() };
+        let mut regs: Vec<(BigUint, F)> = Vec::new();
+        let mut history: Vec<String> = Vec::new();
+        for i in 0..REGS {
+            let v = draw(c);
+            history.push(format!("r{} = new({})", i, v.show()));
+            match expect::<F>(c, call(|| F::make(&v, limbs, &p)), &v, &m, &r, limbs, "new", &v, &zero) {
+                Some(f) => regs.push((v, f)),
+                None => break,
+            }
+        }
+        if regs.len() < REGS {
+            continue;
+        }
+        let len = 1 + c.below(64);
+        for _ in 0..len {
+            let (i, j, k) = (c.below(REGS), c.below(REGS), c.below(REGS));
+            let pick = c.below(OPS.len() + 3);
+            let (desc, exp, got): (String, BigUint, Result<F, String>) = if pick == OPS.len() {
+                // load a fresh special value
+                let v = draw(c);
+                (format!("r{} = new({})", k, v.show()), v.clone(), call(|| F::make(&v, limbs, &p)))
+            } else if pick > OPS.len() {
+                // an inversion now and then (expensive): a non-unit leaves the register alone
+                if c.below(if limbs > 4 { 16 } else { 4 }) != 0 {
+                    continue;
+                }
+                let which = c.below(F::INV_FORMS);
+                let e = inv_mod_oracle(&regs[i].0, &m);
+                let got = call(|| F::inv(which, &regs[i].1, &p));
+                match (e, got) {
+                    (Some(e), Ok(Some(g))) => (format!("r{} = inv#{}(r{})", k, which, i), e, Ok(g)),
+                    (e, got) => {
+                        let v = regs[i].0.clone();
+                        if !check!(c, got.map(|g| g.is_some()), e.is_some(); m, limbs, v, which, history) {
+                            break;
+                        }
+                        continue;
+                    }
+                }
+            } else {
+                let op = OPS[pick];
+                match call(|| F::apply(op, &regs[i].1, &regs[j].1, &p)) {
+                    Ok(None) => continue,
+                    Ok(Some(f)) => (format!("r{} = {:?}(r{}, r{})", k, op, i, j), op.oracle(&regs[i].0, &regs[j].0, &m), Ok(f)),
+                    Err(e) => (format!("r{} = {:?}(r{}, r{})", k, op, i, j), op.oracle(&regs[i].0, &regs[j].0, &m), Err(e)),
+                }
+            };
+            history.push(desc);
+            // observe the written value
+            let mut keep = None;
+            let got = got.and_then(|f| {
+                let o = call(|| f.observe());
+                keep = Some(f);
+                o
+            });
+            let vr = &exp * &r % &m;
+            if !check!(c, got, (exp.clone(), vr.clone(), vr, limbs); m, limbs, history) {
+                break;
+            }
+            regs[k] = (exp, keep.unwrap());
+        }
+    }
+}
+
+fn sequences<F: Form>(c: &mut Ctx, limbs: usize) {
+    let nseq = (c.iters / if limbs > 4 { 8 } else { 2 }).max(12);
+    let ms = moduli_for::<F>(c, limbs, 31);
+    sequences_on::<F>(c, limbs, ms, nseq);
+}
+
+// ---------------------------------------------------------------- parameter sets
+
+/// The fields of a parameter set as printed by its (derived, public) `Debug` impl — the only
+/// public view of `one`, `r2`, `r3`, `mod_neg_inv`, `mod_leading_zeros` of the runtime and boxed
+/// parameter types. `(modulus, one, r2, r3, mod_neg_inv, mod_leading_zeros)`.
+fn debug_fields(s: &str) -> Option<Vec<BigUint>> {
+    fn field(s: &str, name: &str) -> Option<BigUint> {
+        let key = format!("{}: ", name);
+        let rest = &s[s.find(&key)? + key.len()..];
+        if rest.starts_with(|ch: char| ch.is_ascii_digit()) {
+            let end = rest.find(|ch: char| !ch.is_ascii_digit()).unwrap_or(rest.len());
+            return BigUint::parse_bytes(rest[..end].as_bytes(), 10);
+        }
+        let rest = &rest[rest.find("0x")? + 2..];
+        let end = rest.find(|ch: char| !ch.is_ascii_hexdigit()).unwrap_or(rest.len());
+        BigUint::parse_bytes(rest[..end].as_bytes(), 16)
+    }
+    Some(vec![
+        field(s, "modulus")?,
+        field(s, "one")?,
+        field(s, "r2")?,
+        field(s, "r3")?,
+        field(s, "mod_neg_inv")?,
+        field(s, "mod_leading_zeros")?,
+    ])
+}
+
+/// The definitions: `(m, R mod m, R^2 mod m, R^3 mod m, -m^-1 mod 2^64, min(leading zeros, 63))`.
+/// The clamp: "leading zeros in the modulus, used to choose optimized algorithms" is stored as
+/// `min(leading_zeros, Word::BITS - 1)` (it is used as a shift count for the accumulation window).
+pub fn param_definitions(m: &BigUint, limbs: usize) -> Vec<BigUint> {
+    let bits = 64 * limbs as u32;
+    let r = pow2(bits);
+    let w = pow2(64);
+    let inv = inv_mod_oracle(&(m % &w), &w).expect("odd");
+    let neg_inv = (&w - inv) % &w;
+    let lz = (bits as u64 - m.bits()).min(63);
+    vec![m.clone(), &r % m, (&r * &r) % m, (&r * &r * &r) % m, neg_inv, BigUint::from(lz)]
+}
+
+fn runtime_params_on<const L: usize>(c: &mut Ctx, ms: Vec<BigUint>)
+where
+    MontyForm<L>: Form<P = MontyParams<L>>,
+{
+    for m in ms {
+        if c.done() {
+            return;
+        }
+        let limbs = L;
+        let def = param_definitions(&m, L);
+        let ps = [
+            call(|| <MontyForm<L> as Form>::params(&m, L, true)),
+            call(|| <MontyForm<L> as Form>::params(&m, L, false)),
+            call(|| <MontyForm<L> as Monty>::new_params_vartime(oddu::<L>(&m))),
+        ];
+        let mut okp: Vec<MontyParams<L>> = Vec::new();
+        for (ctor, p) in ps.iter().enumerate() {
+            match p {
+                Ok(p) => {
+                    let shown = format!("{:?}", p);
+                    let parsed = debug_fields(&shown);
+                    hold!(c, parsed.is_some(), "harness: Debug output of MontyParams parses"; shown);
+                    if let Some(f) = parsed {
+                        check!(c, Ok::<_, String>(f), def.clone(); m, limbs, ctor);
+                    }
+                    check!(c, call(|| ub(p.modulus().as_ref())), m.clone(); m, limbs, ctor);
+                    okp.push(*p);
+                }
+                Err(e) => {
+                    let got: Result<(), String> = Err(e.clone());
+                    no_panic!(c, got; m, limbs, ctor);
+                }
+            }
+        }
+        for q in okp.iter().skip(1) {
+            let p = &okp[0];
+            hold!(c, p == q, "MontyParams::new == new_vartime == Monty::new_params_vartime"; m, limbs);
+            hold!(c, cb(p.ct_eq(q)), "ct_eq of equal parameter sets"; m, limbs);
+            hold!(c, MontyParams::conditional_select(p, q, choice(1)) == *q && MontyParams::conditional_select(p, q, choice(0)) == *p, "conditional_select of parameter sets"; m, limbs);
+        }
+        // the parameters as seen through values: one(), params()
+        if let Some(p) = okp.first() {
+            let one = MontyForm::<L>::one(*p);
+            hold!(c, one.params() == p && Monty::params(&one) == p, "params() returns the parameters"; m, limbs);
+        }
+    }
+}
+
+fn runtime_params<const L: usize>(c: &mut Ctx)
+where
+    MontyForm<L>: Form<P = MontyParams<L>>,
+{
+    let n = (c.cap / 16 + c.iters / 8).clamp(48, 600);
+    let mut ms = moduli_gt1(c, L, n);
+    for _ in 0..n / 2 {
+        let x = c.rnd(L) | BigUint::one();
+        if !x.is_one() {
+            ms.push(x);
+        }
+    }
+    runtime_params_on::<L>(c, ms);
+}
+
+fn runtime_params_m1<const L: usize>(c: &mut Ctx)
+where
+    MontyForm<L>: Form<P = MontyParams<L>>,
+{
+    runtime_params_on::<L>(c, vec![BigUint::one()]);
+}
+
+fn boxed_params_on(c: &mut Ctx, limbs: usize, ms: Vec<BigUint>) {
+    for m in ms {
+        if c.done() {
+            return;
+        }
+        let def = param_definitions(&m, limbs);
+        let ps = [
+            call(|| BoxedMontyParams::new(oddx(&m, limbs))),
+            call(|| BoxedMontyParams::new_vartime(oddx(&m, limbs))),
+            call(|| <BoxedMontyForm as Monty>::new_params_vartime(oddx(&m, limbs))),
+        ];
+        let mut okp: Vec<BoxedMontyParams> = Vec::new();
+        for (ctor, p) in ps.iter().enumerate() {
+            match p {
+                Ok(p) => {
+                    let shown = format!("{:?}", p);
+                    let parsed = debug_fields(&shown);
+                    hold!(c, parsed.is_some(), "harness: Debug output of BoxedMontyParams parses"; shown);
+                    if let Some(f) = parsed {
+                        check!(c, Ok::<_, String>(f), def.clone(); m, limbs, ctor);
+                    }
+                    check!(c, call(|| (xb(p.modulus().as_ref()), p.modulus().as_ref().nlimbs(), p.bits_precision())), (m.clone(), limbs, 64 * limbs as u32); m, limbs, ctor);
+                    okp.push(p.clone());
+                }
+                Err(e) => {
+                    let got: Result<(), String> = Err(e.clone());
+                    no_panic!(c, got; m, limbs, ctor);
+                }
+            }
+        }
+        for q in okp.iter().skip(1) {
+            hold!(c, &okp[0] == q, "BoxedMontyParams::new == new_vartime == Monty::new_params_vartime"; m, limbs);
+        }
+        if let Some(p) = okp.first() {
+            let got = call(|| {
+                let one = BoxedMontyForm::one(p.clone());
+                one.params() == p && Monty::params(&one) == p && one.bits_precision() == 64 * limbs as u32
+            });
+            check!(c, got, true; m, limbs);
+        }
+    }
+}
+
+fn boxed_params(c: &mut Ctx) {
+    for limbs in 1..=4usize {
+        let n = (c.cap / 64 + c.iters / 32).clamp(40, 200);
+        let mut ms = moduli_gt1(c, limbs, n);
+        for _ in 0..n / 2 {
+            let x = c.rnd(limbs) | BigUint::one();
+            if !x.is_one() {
+                ms.push(x);
+            }
+        }
+        boxed_params_on(c, limbs, ms);
+    }
+}
+
+fn boxed_params_m1(c: &mut Ctx) {
+    for limbs in 1..=4usize {
+        boxed_params_on(c, limbs, vec![BigUint::one()]);
+    }
+}
+
+/// The macro-generated constants against the definitions and against the runtime / boxed
+/// constructors; the public conversions const -> runtime (`From<&ConstMontyForm>`,
+/// `MontyParams::from_const_params`) and const -> boxed (`BoxedMontyParams::from_const_params`).
+fn const_params<P: ConstMontyParams<L>, const L: usize>(c: &mut Ctx)
+where
+    MontyForm<L>: Form<P = MontyParams<L>>,
+{
+    let limbs = L;
+    let m = ub(P::MODULUS.as_ref());
+    let r = pow2(64 * L as u32) % &m;
+    let def = param_definitions(&m, L);
+    let consts = vec![m.clone(), ub(&P::ONE), ub(&P::R2), ub(&P::R3), lb(P::MOD_NEG_INV), BigUint::from(P::MOD_LEADING_ZEROS)];
+    check!(c, Ok::<_, String>(consts), def.clone(); m, limbs);
+    check!(c, Ok::<_, String>(<P as ConstMontyParams<L>>::LIMBS), L; m);
+    // const -> runtime parameters
+    let dynp = MontyParams::<L>::from_const_params::<P>();
+    let fresh = call(|| MontyParams::<L>::new_vartime(oddu::<L>(&m)));
+    check!(c, fresh.map(|f| f == dynp), true; m, limbs);
+    let shown = format!("{:?}", dynp);
+    if let Some(f) = debug_fields(&shown) {
+        check!(c, Ok::<_, String>(f), def.clone(); m, limbs, shown);
+    }
+    // const -> boxed parameters
+    let boxp = call(BoxedMontyParams::from_const_params::<L, P>);
+    let freshb = call(|| BoxedMontyParams::new(oddx(&m, L)));
+    if let (Ok(b), Ok(f)) = (&boxp, &freshb) {
+        hold!(c, b == f, "BoxedMontyParams::from_const_params == BoxedMontyParams::new"; m, limbs);
+        let shown = format!("{:?}", b);
+        if let Some(f) = debug_fields(&shown) {
+            check!(c, Ok::<_, String>(f), def.clone(); m, limbs, shown);
+        }
+    } else {
+        let got: Result<(), String> = boxp.clone().and(freshb.clone()).map(|_| ());
+        no_panic!(c, got; m, limbs);
+    }
+    // `Random`: a uniformly drawn value is canonical too
+    for _ in 0..16 {
+        let got = call(|| <ConstMontyForm<P, L> as Random>::random(&mut c.rng)).map(|x| (ub(&x.retrieve()), ub(&x.to_montgomery())));
+        if let Ok((v, mont)) = &got {
+            hold!(c, v < &m && *mont == v * &r % &m, "ConstMontyForm::random() is canonical"; m, limbs, v, mont);
+        } else {
+            no_panic!(c, got; m, limbs);
+        }
+    }
+    // values: const -> runtime -> (through the Montgomery representation) boxed
+    let zero = BigUint::zero();
+    let n = 16 + c.iters / 8;
+    for v in values(c, &m, n) {
+        if c.done() {
+            return;
+        }
+        let cf = ConstMontyForm::<P, L>::new(&bu::<L>(&v));
+        let dynf = call(|| MontyForm::<L>::from(&cf));
+        if let Some(d) = expect::<MontyForm<L>>(c, dynf, &v, &m, &r, L, "MontyForm::from(&ConstMontyForm)", &v, &zero) {
+            hold!(c, *d.params() == dynp, "converted value carries from_const_params()"; m, limbs, v);
+            hold!(c, d == MontyForm::<L>::new(&bu::<L>(&v), dynp), "MontyForm::from(&const) == MontyForm::new(same integer)"; m, limbs, v);
+            // a step in the runtime representation continues the history
+            let sq = call(|| d.square().add(&d));
+            let e = (&v * &v + &v) % &m;
+            expect::<MontyForm<L>>(c, sq, &e, &m, &r, L, "square+add after conversion", &v, &zero);
+        }
+        if let Ok(bp) = &boxp {
+            let bf = call(|| BoxedMontyForm::from_montgomery(BoxedUint::from(cf.to_montgomery()), bp.clone()));
+            if let Some(b) = expect::<BoxedMontyForm>(c, bf, &v, &m, &r, L, "BoxedMontyForm::from_montgomery(const.to_montgomery(), from_const_params)", &v, &zero) {
+                let sq = call(|| b.square().add(&b));
+                let e = (&v * &v + &v) % &m;
+                expect::<BoxedMontyForm>(c, sq, &e, &m, &r, L, "square+add after conversion (boxed)", &v, &zero);
+            }
+        }
+    }
+}
+
+// ---------------------------------------------------------------- boxed drivers (1..=4 limbs)
+
+fn boxed_new_retrieve(c: &mut Ctx) {
+    for limbs in 1..=4usize {
+        c.scaled(4, |c| new_retrieve::<BoxedMontyForm>(c, limbs));
+    }
+}
+fn boxed_single_ops(c: &mut Ctx) {
+    for limbs in 1..=4usize {
+        c.scaled(2, |c| single_ops::<BoxedMontyForm>(c, limbs));
+    }
+}
+fn boxed_single_ops_m1(c: &mut Ctx) {
+    for limbs in 1..=4usize {
+        single_ops_m1::<BoxedMontyForm>(c, limbs);
+    }
+}
+fn boxed_inversion(c: &mut Ctx) {
+    for limbs in 1..=4usize {
+        c.scaled(8, |c| inversion::<BoxedMontyForm>(c, limbs));
+    }
+}
+fn boxed_sequences(c: &mut Ctx) {
+    for limbs in 1..=4usize {
+        c.scaled(3, |c| sequences::<BoxedMontyForm>(c, limbs));
+    }
+}
+
+/// precisions beyond the fixed-width aliases' small sizes, including a non-power-of-two and 33 limbs
+const BOXED_WIDE: [usize; 4] = [5, 8, 17, 33];
+
+fn boxed_wide_ops(c: &mut Ctx) {
+    for limbs in BOXED_WIDE {
+        c.scaled(8, |c| new_retrieve::<BoxedMontyForm>(c, limbs));
+        c.scaled(8, |c| single_ops::<BoxedMontyForm>(c, limbs));
+    }
+}
+fn boxed_wide_sequences(c: &mut Ctx) {
+    for limbs in BOXED_WIDE {
+        c.scaled(4, |c| sequences::<BoxedMontyForm>(c, limbs));
+    }
+}
+fn boxed_wide_params(c: &mut Ctx) {
+    for limbs in BOXED_WIDE {
+        let ms = moduli_gt1(c, limbs, 24);
+        boxed_params_on(c, limbs, ms);
+    }
+}
+
+// ---------------------------------------------------------------- table
+
+const NEW_DOC: &str = "new/Monty::new (unreduced input) -> retrieve/as_montgomery/to_montgomery";
+const OPS_DOC: &str = "single ops: zero one add sub neg double mul square div_by_2, operators, *_assign, multiplier, select, copy_montgomery_from, Monty forms";
+const INV_DOC: &str = "inv/inv_vartime/Invert/Inverter";
+const SEQ_DOC: &str = "operation sequences (len <= 64, every prefix)";
+
+macro_rules! monty_cases {
+    ($v:ident; $($l:literal),+) => {$(
+        $v.push(Case::new(format!("MontyForm<{}>::{}", $l, NEW_DOC), |c: &mut Ctx| new_retrieve::<MontyForm<$l>>(c, $l)));
+        $v.push(Case::new(format!("MontyForm<{}>::{}", $l, OPS_DOC), |c: &mut Ctx| single_ops::<MontyForm<$l>>(c, $l)));
+        $v.push(Case::new(format!("MontyForm<{}>::{}", $l, INV_DOC), |c: &mut Ctx| inversion::<MontyForm<$l>>(c, $l)));
+        $v.push(Case::new(format!("MontyForm<{}>::{}", $l, SEQ_DOC), |c: &mut Ctx| sequences::<MontyForm<$l>>(c, $l)));
+        $v.push(Case::new(format!("MontyParams<{}>::new/new_vartime/Monty::new_params_vartime == definitions", $l), runtime_params::<$l>));
+        $v.push(Case::new(format!("MontyForm<{}>:: m = 1: single ops", $l), |c: &mut Ctx| single_ops_m1::<MontyForm<$l>>(c, $l)));
+        $v.push(Case::new(format!("MontyParams<{}>:: m = 1: parameters == definitions", $l), runtime_params_m1::<$l>));
+    )+};
+}
+
+/// further widths of the property's quantifier (6, 8, 32 limbs) on a reduced budget
+macro_rules! monty_cases_lite {
+    ($v:ident; $($l:literal),+) => {$(
+        $v.push(Case::new(format!("MontyForm<{}>::{}", $l, NEW_DOC), |c: &mut Ctx| c.scaled(4, |c| new_retrieve::<MontyForm<$l>>(c, $l))));
+        $v.push(Case::new(format!("MontyForm<{}>::{}", $l, OPS_DOC), |c: &mut Ctx| c.scaled(4, |c| single_ops::<MontyForm<$l>>(c, $l))));
+        if $l <= 8 {
+            $v.push(Case::new(format!("MontyForm<{}>::{}", $l, INV_DOC), |c: &mut Ctx| c.scaled(8, |c| inversion::<MontyForm<$l>>(c, $l))));
+        }
+        $v.push(Case::new(format!("MontyForm<{}>::{}", $l, SEQ_DOC), |c: &mut Ctx| c.scaled(4, |c| sequences::<MontyForm<$l>>(c, $l))));
+        $v.push(Case::new(format!("MontyParams<{}>::new/new_vartime/Monty::new_params_vartime == definitions", $l), |c: &mut Ctx| c.scaled(4, runtime_params::<$l>)));
+    )+};
+}
+
+macro_rules! const_cases {
+    ($v:ident; $(($name:ident, $l:literal)),+) => {$(
+        $v.push(Case::new(format!("ConstMontyForm<{}, {}>::{}", stringify!($name), $l, NEW_DOC), |c: &mut Ctx| new_retrieve::<ConstMontyForm<$name, $l>>(c, $l)));
+        $v.push(Case::new(format!("ConstMontyForm<{}, {}>::{}", stringify!($name), $l, OPS_DOC), |c: &mut Ctx| single_ops::<ConstMontyForm<$name, $l>>(c, $l)));
+        $v.push(Case::new(format!("ConstMontyForm<{}, {}>::{}", stringify!($name), $l, INV_DOC), |c: &mut Ctx| inversion::<ConstMontyForm<$name, $l>>(c, $l)));
+        $v.push(Case::new(format!("ConstMontyForm<{}, {}>::{}", stringify!($name), $l, SEQ_DOC), |c: &mut Ctx| c.scaled(2, |c| sequences::<ConstMontyForm<$name, $l>>(c, $l))));
+        $v.push(Case::new(format!("ConstMontyParams {} == definitions == MontyParams/BoxedMontyParams; const -> runtime -> boxed conversion", stringify!($name)), const_params::<$name, $l>));
+    )+};
+}
 
 pub fn cases() -> Vec<Case> {
-    Vec::new()
+    let mut v = Vec::new();
+    monty_cases!(v; 1, 2, 3, 4, 16);
+    monty_cases_lite!(v; 6, 8, 32);
+    case!(v, format!("BoxedMontyForm::{}", NEW_DOC), boxed_new_retrieve);
+    case!(v, format!("BoxedMontyForm::{}", OPS_DOC), boxed_single_ops);
+    case!(v, format!("BoxedMontyForm::{}", INV_DOC), boxed_inversion);
+    case!(v, format!("BoxedMontyForm::{}", SEQ_DOC), boxed_sequences);
+    case!(v, "BoxedMontyParams::new/new_vartime/Monty::new_params_vartime == definitions", boxed_params);
+    case!(v, "BoxedMontyForm (5, 8, 17, 33 limbs)::new + single ops", boxed_wide_ops);
+    case!(v, format!("BoxedMontyForm (5, 8, 17, 33 limbs)::{}", SEQ_DOC), boxed_wide_sequences);
+    case!(v, "BoxedMontyParams (5, 8, 17, 33 limbs)::new/new_vartime == definitions", boxed_wide_params);
+    case!(v, "BoxedMontyForm:: m = 1: single ops", boxed_single_ops_m1);
+    case!(v, "BoxedMontyParams:: m = 1: parameters == definitions", boxed_params_m1);
+    case!(v, "ConstMontyForm<ModOne, 1>:: m = 1: single ops", |c: &mut Ctx| single_ops_m1::<ConstMontyForm<ModOne, 1>>(c, 1));
+    case!(v, "ConstMontyParams ModOne:: m = 1: parameters == definitions", const_params::<ModOne, 1>);
+    const_cases!(v; (ModP256, 4), (ModM64, 1), (ModThree, 1), (ModM127, 2), (ModLz2, 2), (ModLz5, 4), (ModSmall192, 3), (ModBig1024, 16));
+    v
 }
